@@ -30,3 +30,11 @@ mod status;
 mod ui;
 mod validity;
 
+/// Access to the request dispatcher without a socket (verification builds).
+#[cfg(routinator_verif)]
+pub mod verif_api {
+    pub use super::dispatch::State;
+    pub use super::request::Request;
+    pub use super::response::Response;
+}
+
